@@ -34,7 +34,7 @@ import loops as LP
 import panicfree
 from callgraph import callgraph
 from facts import short
-from mir import body_of, callee_path, op_place, strip_generics
+from mir import body_of, callee_path, op_place, place_key, strip_generics
 from packs_common import muxer_entries, io_fallible_set, IO_TRAITS
 from panicfree import fn_short
 from report import site_of
@@ -182,7 +182,8 @@ def run(fx, chk, tier):
                 continue
             st = st.copy()
             for i, s_ in enumerate(ub.stmts(b)):
-                if s_["k"] == "assign" and s_["place"]["l"] == 1 and s_["place"]["p"] and isinstance(s_["place"]["p"][-1], dict) and s_["place"]["p"][-1]["f"] == "duration" and s_["rv"]["k"] == "use":
+                if s_["k"] == "assign" and s_["place"]["p"] and isinstance(s_["place"]["p"][-1], dict) and s_["place"]["p"][-1].get("f") == "duration" and s_["rv"]["k"] == "use" \
+                        and it.norm_target(st, place_key(s_["place"]))[:2] == (1, "deref"):
                     adt = short(s_["place"]["p"][-1].get("adt", ""))
                     sid, lo, hi, prov = it.read_op(st, s_["rv"]["a"], (b, i))
                     stores[adt] = set(prov or ())
@@ -191,9 +192,9 @@ def run(fx, chk, tier):
         m = stores.get("MdhdBox", set())
         t = stores.get("TkhdBox", set())
         dur_root = "P2"
-        chk.require(dur_root in m and any(r.endswith("mdhd.duration") for r in m), "R6", "mdhd.duration", "depends on %s" % sorted(m),
+        chk.require(dur_root in m and any(r.endswith("mdhd.duration") or r == "F:MdhdBox.duration" for r in m), "R6", "mdhd.duration", "depends on %s" % sorted(m),
                     "mdhd.duration is not stored as previous value + sample duration (depends on %s)" % sorted(m), site_of(ud))
-        need_t = dur_root in t and "P3" in t and any(r.endswith("mdhd.timescale") for r in t)
+        need_t = dur_root in t and "P3" in t and any(r.endswith("mdhd.timescale") or r == "F:MdhdBox.timescale" for r in t)
         chk.require(need_t, "R6", "tkhd.duration", "depends on %s" % sorted(t),
                     "tkhd.duration does not depend on the sample durations, the movie timescale and the track timescale (depends on %s)" % sorted(t), site_of(ud))
     wud = fx.impl_fn("Mp4Writer<W>", None, "update_durations")
@@ -208,7 +209,8 @@ def run(fx, chk, tier):
                 continue
             st = st.copy()
             for i, s_ in enumerate(wb2.stmts(b)):
-                if s_["k"] == "assign" and s_["place"]["l"] == 1 and s_["place"]["p"] and isinstance(s_["place"]["p"][-1], dict) and s_["place"]["p"][-1]["f"] == "duration" and s_["rv"]["k"] == "use":
+                if s_["k"] == "assign" and s_["place"]["p"] and isinstance(s_["place"]["p"][-1], dict) and s_["place"]["p"][-1].get("f") == "duration" and s_["rv"]["k"] == "use" \
+                        and it2.norm_target(st, place_key(s_["place"]))[:2] == (1, "deref"):
                     pl = op_place(s_["rv"]["a"])
                     sd = wb2.single_def(pl["l"]) if pl is not None and not pl["p"] else None
                     sid, lo, hi, prov = it2.read_op(st, s_["rv"]["a"], (b, i))
@@ -281,7 +283,7 @@ def run(fx, chk, tier):
                 chk.ok("R9", key, o["how"], o["site"])
             else:
                 chk.bad("R9", key, o["how"], o["site"], o.get("detail"))
-    chk.floor("R9", "count-conservation obligations", n9, 13)
+    chk.floor("R9", "count-conservation obligations", n9, 8)
     return chk.finish(
         "other",
         "Sizes of the %d encoders reachable from the muxer are compared with their layouts in every shape cell; ordering, who-may-write and prologue/patch pairing are dominance and call-graph rules over the muxer closure. "
